@@ -315,6 +315,22 @@ let handle (case : sx) : string =
              paren (List.map (fun c -> match replace_output fuel (by_of fname) (by_of t) c with
                                        | Some b -> atom_of_bytes b | None -> "none") bc)) texts in
            id ^ "\t" ^ paren ["ok"; paren outs])
+  | L (A id :: A "spec" :: ast :: L texts :: rest) ->
+      (* the specification's matches (all-window) of every find/replace command, per text *)
+      (match resolve_program (program_of ast) init_gstate with
+       | GErr e -> id ^ "\t" ^ paren ["err"; sx_generr e]
+       | GOk rxs ->
+           let fuel = (match rest with [] -> nat_of_int 400 | x :: _ -> nat_of x) in
+           let outs = List.map (fun t ->
+             let text = by_of t in
+             paren (List.map (fun ro -> match ro with
+               | None -> "(set)"
+               | Some r ->
+                 (match spec_find_all fuel r text with
+                  | None -> "(nofuel)"
+                  | Some spans -> paren ("spans" :: List.map (fun sp ->
+                      paren [ni sp.sp_start; ni sp.sp_end; sx_value (canon_value (VMap sp.sp_env))]) spans))) rxs)) texts in
+           id ^ "\t" ^ paren ["ok"; paren outs])
   | L (A id :: A "check" :: A ctx :: [L stmts]) ->
       let c = if ctx = "predicate" then CtxPredicate else CtxTransform in
       (match check_ok c (pstmts_of stmts) with
